@@ -23,6 +23,11 @@ inductive Cert
       (`PoolCurrentState` returns a registration and a retirement epoch): the pool still
       holds its deposit, so this is a re-registration — no deposit, in code and formula -/
   | pregRetiring (id : Nat)
+  /-- genesis key delegation and move-instantaneous-rewards certificates (Shelley..Babbage):
+      MIR moves `amt` from the reserves / the treasury to reward accounts or the other pot —
+      neither enters the transaction's balance, in the code or in the ledger formula -/
+  | genesis
+  | mir (amt : Nat)
   /-- Conway certificates carrying an amount (CIP-0094); `recorded` = deposit the ledger
       state holds (stake credential: not exposed by the LedgerState interface; DRep:
       `ls.DRepRegistration(cred).Deposit`) -/
@@ -164,6 +169,26 @@ def depositOff (kd dd : Nat) : Cert → Bool
   | _ => false
 
 def certDepositsBad (t : Tx) : Bool := isConway t && t.certs.any (depositOff t.kd t.dd)
+
+/-! ### what a transaction produces, and the transaction that spends it -/
+
+/-- `tx.Produced()`: (output index, output). A phase-2-valid transaction produces its
+    outputs, numbered from 0; a phase-2-invalid one only its collateral return (Babbage+),
+    at index |outputs|. -/
+def producedUtxo (t : Tx) : List (Nat × Out) :=
+  if t.valid then t.outs.zipIdx.map (fun p => (p.2, p.1))
+  else match t.collRet with
+    | some r => [(t.outs.length, r)]
+    | none => []
+
+/-- a transaction of the same era that spends the given UTxO entries (all resolvable)
+    into outputs of the same values: no fee, no certificates, nothing minted -/
+def spendAll (t : Tx) (p : List Out) : Tx :=
+  { era := t.era, kd := t.kd, pd := t.pd, dd := t.dd, fee := 0, mint := [], don := 0,
+    ins := p.map (fun o => ⟨true, o.coin, o.toks⟩), outs := p, wds := [], certs := [], props := [] }
+
+/-- the follow-up transaction of the harness op: spend everything `t` produced -/
+def followUp (t : Tx) : Tx := spendAll t ((producedUtxo t).map (·.2))
 
 /-! ### the ledger formula (specification) -/
 
